@@ -3,6 +3,7 @@
   reports an error; no COSE_Sign with zero or empty signatures on the wire.
 -/
 import CoseModel.Messages
+import CoseProofs.Props.C20
 open CoseModel
 namespace C11
 
@@ -143,5 +144,72 @@ theorem signmsg_no_empty_on_wire (m : SignMsg) (s : SigV) (hm : s ∈ m.sigs) (h
     | err e => simp [hh] at hc
     | panic => simp [hh] at hc
     | unmodelled => simp [hh] at hc
+
+/-- "Signing either fills every signature slot or reports an error" — for EVERY list of signers
+    (repair 9ac6635: a signer that answers with no error and no bytes makes `Signature.Sign`
+    return `ErrEmptySignature`; before, `SignMessage.Sign` went on to the next signer and
+    returned nil with that slot unsigned).  No hypothesis on the signers, none on the message:
+    `Sign` itself checks that there are as many signers as slots. -/
+theorem signmsg_sign_ok_all_filled (m : SignMsg) (ext : Option Bytes) (signers : List Signer)
+    (hok : (Sign.sign m ext signers).out = .ok ()) :
+    ∀ sg ∈ (Sign.sign m ext signers).state.sigs, blen sg.sig ≠ 0 := by
+  unfold Sign.sign at hok ⊢
+  by_cases hp : m.payload.isNone
+  · simp [hp] at hok
+  · by_cases he : m.sigs.isEmpty
+    · simp [hp, he] at hok
+    · by_cases hl : m.sigs.length ≠ signers.length
+      · simp [hp, he, hl] at hok
+      · simp only [hp, he, hl, if_false, Bool.false_eq_true] at hok ⊢
+        cases hb : marshalProtected m.h with
+        | ok bprot =>
+          simp only [hb] at hok ⊢
+          exact C20.signLoop_ok_all_filled bprot m.payload ext m.sigs signers
+            (by simpa using hl) hok
+        | err e => simp [hb] at hok
+        | panic => simp [hb] at hok
+        | unmodelled => simp [hb] at hok
+
+/-- … hence a COSE_Sign whose signing reported success has no slot the encoder refuses for an
+    empty signature, and at least one slot -/
+theorem signmsg_sign_ok_slots (m : SignMsg) (ext : Option Bytes) (signers : List Signer)
+    (hok : (Sign.sign m ext signers).out = .ok ()) :
+    (Sign.sign m ext signers).state.sigs ≠ [] ∧
+    (Sign.sign m ext signers).state.sigs.length = signers.length := by
+  unfold Sign.sign at hok ⊢
+  by_cases hp : m.payload.isNone
+  · simp [hp] at hok
+  · by_cases he : m.sigs.isEmpty
+    · simp [hp, he] at hok
+    · by_cases hl : m.sigs.length ≠ signers.length
+      · simp [hp, he, hl] at hok
+      · simp only [hp, he, hl, if_false, Bool.false_eq_true] at hok ⊢
+        cases hb : marshalProtected m.h with
+        | ok bprot =>
+          simp only [hb] at hok ⊢
+          have hlen : ∀ (sgs : List SigV) (ss : List Signer),
+              (signLoop bprot m.payload ext sgs ss).1.length = sgs.length := by
+            intro sgs
+            induction sgs with
+            | nil => intro ss; unfold signLoop; rfl
+            | cons sg sgs ih =>
+              intro ss
+              cases ss with
+              | nil => unfold signLoop; rfl
+              | cons s ss =>
+                unfold signLoop
+                cases ho : (Signature.sign sg s bprot m.payload ext).out <;>
+                  simp only [ho, List.length_cons, ih ss]
+          have h1 := hlen m.sigs signers
+          have h2 : m.sigs.length = signers.length := by simpa using hl
+          refine ⟨?_, by rw [h1, h2]⟩
+          intro hnil
+          rw [hnil] at h1
+          cases hs : m.sigs with
+          | nil => simp [hs] at he
+          | cons a r => rw [hs] at h1; simp at h1
+        | err e => simp [hb] at hok
+        | panic => simp [hb] at hok
+        | unmodelled => simp [hb] at hok
 
 end C11
